@@ -1,11 +1,11 @@
-\* generation: every transition over the scripted tree T3 with one observer and one restart, printed once
+\* generation: every transition over tree T4e, one observer, one restart
 SPECIFICATION Spec
 CONSTANTS
-  N = 3
-  Byz <- NoByz
+  N = 4
+  Byz <- Byz3
   Nodes <- Obs1
-  Blk0 <- T3
-  MaxBlocks = 9
+  Blk0 <- T4e
+  MaxBlocks = 10
   MaxRestarts = 1
   ByzMode = "branch"
   ByzRanges <- R123
